@@ -9,6 +9,9 @@ CLAIMS = {
     "C02": dict(cat="proof", ref="DESIGN.md 5/C02",
         text="parse/print identity of Frame, Command (_from_attrs, from_attrs, from_cli), Packet and the log reader is an SMT-discharged postcondition of the real functions for all frames of the enumerated payload lengths (exhaustive over 1..48 in the thorough tier)",
         note="trusted: pyvc encoding of Python semantics (A1-A14), z3/cvc5, regex->NFA compiler; pkt_lifespan abstracted by its call-site contract (proved under C14); the logging library's formatting is an assumed contract validated natively on every run (bounded, not counted as proved); Packet._partition proved for part lengths <= 4/2/2/3 only (bounded)"),
+    "C06": dict(cat="proof", ref="DESIGN.md 5/C06",
+        text="L-echo, L-reply and L-miss (one-dimension near misses) are SMT-discharged postconditions of the real pkt_header/_pkt_idx/_ctx/_hdr/rx_header and WantEcho/WantRply.pkt_rcvd for every RQ/W (code, payload length) of the schema, all ids and all schema-conforming payloads; four genuine exceptions are listed known findings and the obligations are re-proved outside their input classes",
+        note="trusted: pyvc semantics, z3/cvc5, regex->NFA compiler; ProtocolContext.set_state abstracted by a recording call-site contract (the real one is under C08); pkt_lifespan by its call-site contract; quick tier = codes of CODE_API_MAP at their shortest payload length, thorough = every code/length of CODES_SCHEMA"),
     "C04": dict(cat="proof", ref="DESIGN.md 5/C04",
         text="every codec obligation (decode spec, encode/decode inverses, no silent wrap, id bijection) is an SMT-discharged postcondition of the real function for all inputs",
         note="trusted: pyvc encoding of Python semantics (A1-A4, A11), z3/cvc5; float rounding over-approximated by the relative-error bound with an exact IEEE-754 second back end"),
